@@ -61,6 +61,12 @@ func (fx *FnExec) run() (err error) {
 			}
 		}
 	}
+	fx.rename, fx.baseParams = renamesFor(fx.key, fn)
+	for old, cur := range fx.rename {
+		if _, have := fx.names[old]; !have {
+			fx.names[old] = fx.names[cur]
+		}
+	}
 	fx.cur = fx.entry.clone()
 	fx.curReach = tTrue
 	// parameters
@@ -68,6 +74,12 @@ func (fx *FnExec) run() (err error) {
 		v := fx.freshVal(p.Type(), "p."+p.Name())
 		fx.vals[p] = v
 		fx.params[p.Name()] = v
+		if i < len(fx.baseParams) && fx.baseParams[i] != p.Name() {
+			// the parameter was renamed since the baseline: contracts may still use the old name
+			if _, clash := fx.params[fx.baseParams[i]]; !clash {
+				fx.params[fx.baseParams[i]] = v
+			}
+		}
 		fx.c.assert(fx.wellTyped(v, &fx.cur))
 		if i == 0 && fn.Signature.Recv() != nil && isPointer(p.Type()) && fx.flag("nilrecv") == "" {
 			fx.c.assert(sNot(fx.isNil(v)))
@@ -199,7 +211,13 @@ func (fx *FnExec) specEnv(heap, old *Heap, results []Val) *Env {
 			env.pkg = fx.iface.Obj.Pkg()
 		}
 	}
-	env.local = func(name string) (Val, bool) { return fx.localByName(name) }
+	env.local = func(name string) (Val, bool) {
+		v, ok := fx.localByName(name)
+		if ok && os.Getenv("GOVC_TRACE_LOCALS") != "" && name != "rangeindex" {
+			fmt.Fprintf(os.Stderr, "LOCAL %s %s\n", displayKey(fx.key), name)
+		}
+		return v, ok
+	}
 	return env
 }
 
@@ -246,7 +264,7 @@ func (fx *FnExec) localByName(name string) (Val, bool) {
 		for h, li := range fx.loops {
 			if li.blocks[fx.curBlock] || h == fx.curBlock {
 				for _, in := range h.Instrs {
-					if p, ok := in.(*ssa.Phi); ok && p.Comment == name {
+					if p, ok := in.(*ssa.Phi); ok && (p.Comment == name || (fx.rename[name] != "" && p.Comment == fx.rename[name])) {
 						if best == nil || best.Block().Index < h.Index {
 							best = p
 						}
@@ -324,7 +342,7 @@ func (fx *FnExec) localNth(name string, k int) (Val, bool) {
 	for _, b := range fx.fn.Blocks {
 		for _, in := range b.Instrs {
 			if d, ok := in.(*ssa.DebugRef); ok && !d.IsAddr {
-				if obj := d.Object(); obj != nil && obj.Name() == name {
+				if obj := d.Object(); obj != nil && (obj.Name() == name || (fx.rename[name] != "" && obj.Name() == fx.rename[name])) {
 					// the defining occurrence of a variable is the DebugRef at the object's own position
 					if d.Pos() == obj.Pos() && !seenObj[obj.Pos()] {
 						seenObj[obj.Pos()] = true
@@ -863,6 +881,19 @@ func (fx *FnExec) instr(in ssa.Instruction) error {
 			return err
 		}
 		fx.set(x, r)
+		// ret(Name, n): the result of the n-th call (in block order) of a function or method of that name
+		cn := ""
+		if cc := x.Common(); cc.IsInvoke() {
+			cn = cc.Method.Name()
+		} else if sc := cc.StaticCallee(); sc != nil {
+			cn = sc.Name()
+			if i := strings.Index(cn, "["); i > 0 {
+				cn = cn[:i]
+			}
+		}
+		if cn != "" {
+			fx.callRets[fmt.Sprintf("%s@%d", cn, fx.ord("ret:"+cn))] = x
+		}
 	case *ssa.Go:
 		// the spawned call is modelled as a call made at the spawn point: its contract's effects (in particular the
 		// ghost log of who was invoked) apply once; what the goroutine does later, interleaved with the spawner, is
